@@ -2,8 +2,8 @@ package helpers
 
 const (
 	zzLevel   = 2
-	zzPreempt = 2
-	zzTimers  = 2
-	zzBatches = 2
-	zzWorkers = 2
+	zzPreempt = 1
+	zzTimers  = 1
+	zzBatches = 3
+	zzWorkers = 1
 )
